@@ -32,7 +32,7 @@ theorem no_raw_leak (s : State) (ops : List Op) :
     · rw [e] at hmem; exact absurd hmem (sendOver_noraw st c a' p' a p)
     · rw [e] at hmem; simp at hmem
     · rw [e] at hmem; simp at hmem
-  | notify b => simp [step, notify] at hmem
+  | notify b q => simp [step, notify] at hmem
   | _ => simp [step] at hmem <;> (split at hmem <;> simp at hmem)
 
 /-- **Tunnelled only over a ready circuit of the configured length ending in an IPv8 exit.**  Every `send_data` call of
@@ -76,7 +76,7 @@ theorem tunnelled_only_over_ready_exit_circuit (s : State) (ops : List Op) :
       · rw [h2]; rfl
     · rw [e] at hmem; simp at hmem
     · rw [e] at hmem; simp at hmem
-  | notify b => simp [step, notify] at hmem
+  | notify b q => simp [step, notify] at hmem
   | _ => simp [step] at hmem <;> (split at hmem <;> simp at hmem)
 
 /-- **A circuit that is being torn down is ineligible at once.**  From the moment `remove_circuit(cid)` has been
@@ -355,11 +355,13 @@ theorem anonymized_overlay_never_raw (s : State) (cid : Bytes) (hlen : cid.lengt
   rw [hst] at hplain
   simp [State.anonymized, ht, hk] at hplain
 
-/-- **Loading a plain overlay revokes nothing.**  `Community.__init__` without `settings.anonymize` leaves the
-    endpoint exactly as it was — in particular the anonymity another overlay instance (or an explicit
-    `set_anonymity`) enabled for the same community id / prefix. -/
+/-- **Loading a plain overlay revokes nothing.**  `Community.__init__` without `settings.anonymize` registers the
+    overlay as a listener for its prefix and otherwise leaves the endpoint exactly as it was — in particular the
+    anonymity another overlay instance (or an explicit `set_anonymity`) enabled for the same community id / prefix. -/
 theorem plain_overlay_load_changes_nothing (s : State) (cid : Bytes) :
-    step s (.overlay cid false) = (s, []) := by
+    step s (.overlay cid false) =
+      ({ s with plisteners := s.plisteners ++ [(overlayPrefix cid, { lid := 1000 + s.nextOverlay, anonymize := some false })],
+                nextOverlay := s.nextOverlay + 1 }, []) := by
   simp [step]
 
 /-- **Overlays that share a prefix.**  After an overlay has opted in, loading any number of further overlay
@@ -380,20 +382,93 @@ theorem shared_prefix_stays_anonymized (s : State) (cid : Bytes) (hlen : cid.len
   · simp
   · exact hpost o ho
 
-/-- **Delivery filter by origin** (of `TunnelEndpoint.notify_listeners` only).  `notify_listeners(packet, from_tunnel)`
-    offers the packet to exactly those entries of the wrapped endpoint's `_listeners` whose `anonymize` attribute
-    (absent = False) equals `from_tunnel`, and changes nothing.  This says nothing about the wrapped endpoint's own
-    `notify_listeners` (socket traffic is delivered by prefix, without this filter) nor about listeners registered by
-    prefix only, which `Community` objects are: see design.d/C07.md, "receive path". -/
-theorem delivery_filter (s : State) (ft : Bool) (lid : Nat) :
-    (Event.deliver lid ∈ (step s (.notify ft)).2 ↔ ∃ l ∈ s.listeners, l.lid = lid ∧ l.anonymize.getD false = ft)
-    ∧ (step s (.notify ft)).1 = s := by
-  constructor
-  · simp only [step, notify, List.mem_map, List.mem_filter, beq_iff_eq, Event.deliver.injEq]
+/-- **Delivery filter by origin.**  `TunnelEndpoint.notify_listeners((origin, p), from_tunnel)` offers the packet to
+    exactly those listeners the wrapped endpoint has for it — the overlays registered for the packet's 22-byte prefix
+    and the global listeners (`_prefix_map.get(prefix, _listeners)`) — whose `anonymize` attribute (absent = False)
+    equals `from_tunnel`; each of them once; and it changes nothing.  (Listener ids are pairwise distinct.) -/
+theorem delivery_filter (s : State) (ft : Bool) (p : Bytes) (lid : Nat)
+    (hu : ∀ l m, (l ∈ s.listeners ∨ (p.take prefixLen, l) ∈ s.plisteners) →
+                 (m ∈ s.listeners ∨ (p.take prefixLen, m) ∈ s.plisteners) → l.lid = m.lid → l = m) :
+    (Event.deliver lid ∈ (step s (.notify ft p)).2 ↔
+        ∃ l, (l ∈ s.listeners ∨ (p.take prefixLen, l) ∈ s.plisteners) ∧ l.lid = lid ∧ l.anonymize.getD false = ft)
+    ∧ ((step s (.notify ft p)).2.filterMap (fun e => match e with | .deliver i => some i | _ => none)).Nodup
+    ∧ (step s (.notify ft p)).1 = s := by
+  have hcand : ∀ l, l ∈ ((s.plisteners.filter (fun e => e.1 = p.take prefixLen)).map (·.2)) ++ s.listeners ↔
+      (l ∈ s.listeners ∨ (p.take prefixLen, l) ∈ s.plisteners) := by
+    intro l
+    simp only [List.mem_append, List.mem_map, List.mem_filter, decide_eq_true_eq]
     constructor
-    · rintro ⟨l, ⟨hl, hf⟩, rfl⟩; exact ⟨l, hl, rfl, hf⟩
-    · rintro ⟨l, hl, rfl, hf⟩; exact ⟨l, ⟨hl, hf⟩, rfl⟩
-  · rfl
+    · rintro (⟨e, ⟨he, hk⟩, rfl⟩ | h)
+      · right; rw [← hk]; exact he
+      · left; exact h
+    · rintro (h | h)
+      · right; exact h
+      · left; exact ⟨(p.take prefixLen, l), ⟨h, rfl⟩, rfl⟩
+  refine ⟨?_, ?_, rfl⟩
+  · simp only [step, notify, State.listenersFor, List.mem_map, List.mem_filter, beq_iff_eq, Event.deliver.injEq]
+    constructor
+    · rintro ⟨l, ⟨hl, hf⟩, rfl⟩
+      exact ⟨l, (hcand l).1 (dedupL_sub _ l hl), rfl, hf⟩
+    · rintro ⟨l, hl, rfl, hf⟩
+      obtain ⟨m, hm, hml⟩ := dedupL_has_lid _ l ((hcand l).2 hl)
+      have : m = l := hu m l ((hcand m).1 (dedupL_sub _ m hm)) hl hml
+      subst this
+      exact ⟨m, ⟨hm, hf⟩, rfl⟩
+  · simp only [step, notify, State.listenersFor]
+    have hn := dedupL_nodup (((s.plisteners.filter (fun e => e.1 = p.take prefixLen)).map (·.2)) ++ s.listeners)
+    generalize dedupL _ = L at hn ⊢
+    induction L with
+    | nil => simp
+    | cons x xs ih =>
+      simp only [List.map_cons, List.nodup_cons] at hn
+      simp only [List.filter_cons]
+      split
+      · simp only [List.map_cons, List.filterMap_cons, List.nodup_cons]
+        refine ⟨?_, ih hn.2⟩
+        intro hmem
+        apply hn.1
+        simp only [List.mem_filterMap, List.mem_map, List.mem_filter] at hmem
+        obtain ⟨e, ⟨l, ⟨hl, _⟩, rfl⟩, he⟩ := hmem
+        simp at he
+        exact List.mem_map.2 ⟨l, hl, he⟩
+      · exact ih hn.2
+
+/-- **An anonymized overlay receives tunnel traffic and only tunnel traffic; a plain overlay the mirror image.**
+    Right after `Community.__init__` (20-byte id) the overlay is offered every packet with its prefix that
+    `notify_listeners` is given with `from_tunnel = settings.anonymize`, and none given with the opposite origin —
+    although it is registered by prefix only and does not sit in the wrapped endpoint's `_listeners`. -/
+theorem overlay_receives_by_origin (s : State) (cid body : Bytes) (anon ft : Bool) (hlen : cid.length = 20)
+    (hfresh : ∀ l, (l ∈ s.listeners ∨ (overlayPrefix cid, l) ∈ s.plisteners) → l.lid ≠ 1000 + s.nextOverlay) :
+    (Event.deliver (1000 + s.nextOverlay) ∈
+        (step (step s (.overlay cid anon)).1 (.notify ft (overlayPrefix cid ++ body))).2) ↔ ft = anon := by
+  have hl : (overlayPrefix cid).length = prefixLen := by
+    simp [overlayPrefix, communityPrefixHead, prefixLen, hlen]
+  have ht : (overlayPrefix cid ++ body).take prefixLen = overlayPrefix cid := by
+    rw [← hl]; exact List.take_left
+  simp only [step, notify, State.listenersFor, ht, List.mem_map, List.mem_filter, beq_iff_eq, Event.deliver.injEq]
+  constructor
+  · rintro ⟨l, ⟨hl', hf⟩, hlid⟩
+    have hmem := dedupL_sub _ l hl'
+    simp only [List.filter_append, List.map_append, List.mem_append, List.mem_map, List.mem_filter,
+      decide_eq_true_eq, List.mem_singleton] at hmem
+    rcases hmem with (⟨e, ⟨he, hk⟩, rfl⟩ | ⟨e, ⟨rfl, _⟩, rfl⟩) | hg
+    · exact absurd hlid (hfresh e.2 (Or.inr (by rw [← hk]; exact he)))
+    · simp at hf; exact hf.symm
+    · exact absurd hlid (hfresh l (Or.inl hg))
+  · intro hft
+    have hin : (Listener.mk (1000 + s.nextOverlay) (some anon)) ∈
+        (((s.plisteners ++ [((overlayPrefix cid, Listener.mk (1000 + s.nextOverlay) (some anon)) : Bytes × Listener)]).filter
+          (fun (e : Bytes × Listener) => decide (e.1 = overlayPrefix cid))).map (fun (e : Bytes × Listener) => e.2))
+          ++ s.listeners := by
+      simp [List.filter_append]
+    obtain ⟨m, hm, hml⟩ := dedupL_has_lid _ _ hin
+    have hmem := dedupL_sub _ m hm
+    simp only [List.filter_append, List.map_append, List.mem_append, List.mem_map, List.mem_filter,
+      decide_eq_true_eq, List.mem_singleton] at hmem
+    rcases hmem with (⟨e, ⟨he, hk⟩, rfl⟩ | ⟨e, ⟨rfl, _⟩, rfl⟩) | hg
+    · exact absurd hml (hfresh e.2 (Or.inr (by rw [← hk]; exact he)))
+    · exact ⟨_, ⟨hm, by simp [hft]⟩, rfl⟩
+    · exact absurd hml (hfresh m (Or.inl hg))
 
 /-! ### non-vacuity: concrete states in which the interesting branches are taken -/
 
@@ -405,7 +480,8 @@ private def stReady : State :=
   { cap := 2, settings := [(pfxA, true)], queue := [(5, pktA 1)], hops := 1, attached := true,
     comm := { circuits := [{ cid := 9, goalHops := 1, ctype := .data, closing := false,
                               hops := [{ addr := 7, flags := [1, 4] }] }], nextId := 10, canCreate := true, failAfter := none },
-    listeners := [{ lid := 1, anonymize := some true }, { lid := 2, anonymize := none }] }
+    listeners := [{ lid := 1, anonymize := some true }, { lid := 2, anonymize := none }],
+    plisteners := [], nextOverlay := 0 }
 
 /-- tunnelled: new packet first, then the backlog, over circuit 9 via first hop 7; queue emptied -/
 example : step stReady (.send 3 (pktA 2)) =
@@ -455,6 +531,14 @@ example : (trace (init 2) [.overlay (List.replicate 20 0xAA) true, .overlay (Lis
     = [[], [], [], [], [.create 1 (some [4]) (some 1)], [.raw 4 (overlayPrefix (List.replicate 20 0xBB) ++ [1])]] := by
   decide
 /-- delivery filter on a concrete listener set -/
-example : (step stReady (.notify true)).2 = [.deliver 1] ∧ (step stReady (.notify false)).2 = [.deliver 2] := by decide
+example : (step stReady (.notify true (pktA 1))).2 = [.deliver 1] ∧ (step stReady (.notify false (pktA 1))).2 = [.deliver 2] := by
+  decide
+/-- an anonymized overlay and a plain one under the same community id, one global plain listener: tunnel traffic with
+    that prefix goes to the anonymized overlay only, socket traffic to the plain overlay and the global listener;
+    another prefix reaches the global listener only -/
+example : (trace (init 2) [.overlay (List.replicate 20 0xAA) true, .overlay (List.replicate 20 0xAA) false,
+      .addListener { lid := 2, anonymize := none }, .notify true (pktA 1), .notify false (pktA 1),
+      .notify false (0 :: pktA 1), .unloadOverlay 1000, .notify true (pktA 1)]).map (·.2.2)
+    = [[], [], [], [.deliver 1000], [.deliver 1001, .deliver 2], [.deliver 2], [], []] := by decide
 
 end Ipv8.C07
